@@ -681,6 +681,10 @@ impl<'b, 'a: 'b> FmtVisitor<'a> {
             (ast::AssocItemKind::MacCall(ref mac), _) => {
                 self.visit_mac(mac, MacroPosition::Item);
             }
+            // (as at module level: no formatting for delegation items yet)
+            (ast::AssocItemKind::Delegation(..) | ast::AssocItemKind::DelegationMac(..), _) => {
+                self.push_rewrite(ai.span, None);
+            }
             _ => unreachable!(),
         }
     }
